@@ -74,6 +74,7 @@ type Event struct {
 	Link  string `json:"link"`
 	WSeed int64  `json:"wseed"`
 	Big   bool   `json:"big"`
+	Many  bool   `json:"many"`
 	Conns []Conn `json:"conns"`
 	Wire  []Pkt  `json:"wire"`
 	Omits []Pkt  `json:"omits"`
@@ -84,7 +85,11 @@ type Event struct {
 	Bytes int    `json:"bytes"`
 }
 
-func tok(c, dir, p int) int { return c*1000 + dir*100 + p }
+func tok(c, dir, p int) int { return c*100000 + dir*10000 + p }
+
+// many: one connection whose client sends several hundred small segments (the reassembler's per-connection page budget, the
+// sequence-number arithmetic over hundreds of segments and what follows a gap by far)
+var many bool
 func nz(p []Pkt) []Pkt {
 	if p == nil {
 		return []Pkt{}
@@ -162,6 +167,9 @@ func buildWorld(h *History, rng *rand.Rand, big bool) *world {
 					l = 1 + rng.Intn(300)
 				default:
 					l = 1 + rng.Intn(1500)
+				}
+				if many {
+					l = 8 + rng.Intn(57)
 				}
 				if big && rng.Intn(20) != 0 {
 					l = 1400 + rng.Intn(101) // 40..45 tokens of ~1450 bytes: 55..66 KiB per direction
@@ -681,6 +689,9 @@ func randomHistory(rng *rand.Rand, big bool) *History {
 	if big {
 		nc = 1 + rng.Intn(2)
 	}
+	if many {
+		nc = 1
+	}
 	type cs struct {
 		n, nxt [3]int
 		fin    [3]bool
@@ -707,6 +718,9 @@ func randomHistory(rng *rand.Rand, big bool) *History {
 			if big {
 				s.n[d] = 40 + rng.Intn(6) // with ~1450-byte chunks: 55..66 KiB
 			}
+			if many {
+				s.n[d] = []int{280 + rng.Intn(400), rng.Intn(30)}[d-1]
+			}
 			s.nxt[d] = 1
 		}
 		if cn.Hs {
@@ -716,7 +730,7 @@ func randomHistory(rng *rand.Rand, big bool) *History {
 	}
 	// the senders' view, interleaved
 	var ideal []Pkt
-	for steps := 0; steps < 5000; steps++ {
+	for steps := 0; steps < 20000; steps++ {
 		var live []int
 		for c := 1; c <= nc; c++ {
 			s := st[c]
@@ -781,6 +795,9 @@ func randomHistory(rng *rand.Rand, big bool) *History {
 	nOmit := 0
 	if rng.Intn(3) == 0 {
 		nOmit = 1 + rng.Intn(2)
+	}
+	if many && rng.Intn(4) != 0 {
+		nOmit = 1
 	}
 	var wire []Pkt
 	dg := 0
@@ -865,10 +882,15 @@ func main() {
 		n := kit.Atoi(os.Args[2])
 		out := kit.NewOut(os.Args[3])
 		nbig := kit.Atoi(os.Args[4])
+		nmany := 0
+		if len(os.Args) > 5 {
+			nmany = kit.Atoi(os.Args[5])
+		}
 		seed := kit.Seed()
 		rng := rand.New(rand.NewSource(seed))
 		for i := 0; i < n; i++ {
 			big := i < nbig
+			many = !big && i < nbig+nmany
 			h := randomHistory(rng, big)
 			for len(h.Wire) == 0 { // nothing captured: not a history
 				h = randomHistory(rng, big)
@@ -877,7 +899,7 @@ func main() {
 			f, l := fmtNames[k%len(fmtNames)], linkNames[k/len(fmtNames)]
 			ws := seed*7000003 + int64(i)
 			obs, coinc, errs, nb, _ := observe(h, f, l, ws, big)
-			out.Emit(Event{ID: i, Src: "rand", Fmt: f, Link: l, WSeed: ws, Big: big, Conns: h.Conns, Wire: h.Wire, Omits: nz(h.Omits), Swaps: nzi(h.Swaps), Obs: obs, Coinc: coinc, Err: errs, Bytes: nb})
+			out.Emit(Event{ID: i, Src: "rand", Fmt: f, Link: l, WSeed: ws, Big: big, Many: many, Conns: h.Conns, Wire: h.Wire, Omits: nz(h.Omits), Swaps: nzi(h.Swaps), Obs: obs, Coinc: coinc, Err: errs, Bytes: nb})
 		}
 		out.Close()
 	case "again": // re-run recorded events: c19 again <events.ndjson> <events-out.ndjson>
@@ -886,6 +908,7 @@ func main() {
 			var e Event
 			kit.Unmarshal(raw, &e)
 			h := History{Conns: e.Conns, Wire: e.Wire}
+			many = e.Many
 			obs, coinc, errs, n, _ := observe(&h, e.Fmt, e.Link, e.WSeed, e.Big)
 			e.Obs, e.Coinc, e.Err, e.Bytes = obs, coinc, errs, n
 			e.Omits, e.Swaps = nz(e.Omits), nzi(e.Swaps)
@@ -900,6 +923,7 @@ func main() {
 		var e Event
 		kit.Unmarshal(raw, &e)
 		h := History{Conns: e.Conns, Wire: e.Wire}
+		many = e.Many
 		obs, coinc, errs, n, file := observe(&h, e.Fmt, e.Link, e.WSeed, e.Big)
 		e.Obs, e.Coinc, e.Err, e.Bytes = obs, coinc, errs, n
 		e.Omits, e.Swaps = nz(e.Omits), nzi(e.Swaps)
